@@ -286,8 +286,12 @@ def main(check_id, tier, replay_path=None):
         'wall_s': round(wall, 2),
         'violations': len(violations),
     }
-    os.makedirs(os.path.join(env.VERIF, 'evidence'), exist_ok=True)
-    with open(os.path.join(env.VERIF, 'evidence', prop + '.json'), 'w') as dst:
+    # VERIF_EVIDENCE_DIR: tools that run checks against a deliberately broken
+    # tree keep that run's evidence away from the real one
+    directory = os.environ.get('VERIF_EVIDENCE_DIR') or os.path.join(
+        env.VERIF, 'evidence')
+    os.makedirs(directory, exist_ok=True)
+    with open(os.path.join(directory, prop + '.json'), 'w') as dst:
         json.dump(evidence, dst, indent=1, sort_keys=True, default=repr)
         dst.write('\n')
 
